@@ -1,0 +1,52 @@
+//go:build verif
+
+package ruleguard
+
+// Verification hooks for the engine-wide caches (property C08): drive engineState.FindType exactly
+// as a custom filter's GetType/GetInterface does, and read the key sets of the two caches.
+// Thin, add-only wrappers; not part of the API.
+
+import (
+	"go/token"
+	"go/types"
+	"sort"
+)
+
+// VerifImporter is the per-run importer a rulesRunner would own.
+type VerifImporter struct{ imp *goImporter }
+
+// VerifNewImporter creates an importer the way newRulesRunner does.
+func VerifNewImporter(e *Engine, fset *token.FileSet) *VerifImporter {
+	return &VerifImporter{imp: newGoImporter(e.impl.state, goImporterConfig{
+		fset:         fset,
+		buildContext: e.BuildContext,
+	})}
+}
+
+// VerifFindType is engineState.FindType.
+func VerifFindType(e *Engine, imp *VerifImporter, currentPkg *types.Package, fqn string) (types.Type, error) {
+	return e.impl.state.FindType(imp.imp, currentPkg, fqn)
+}
+
+// VerifTypeCacheKeys returns the sorted keys of the FQN->type cache.
+// Not synchronised: call it only while no Run / VerifFindType is in flight.
+func VerifTypeCacheKeys(e *Engine) []string {
+	st := e.impl.state
+	keys := make([]string, 0, len(st.typeByFQN))
+	for k := range st.typeByFQN {
+		keys = append(keys, k)
+	}
+	sort.Strings(keys)
+	return keys
+}
+
+// VerifPkgCacheKeys returns the sorted keys of the package cache (same caveat).
+func VerifPkgCacheKeys(e *Engine) []string {
+	st := e.impl.state
+	keys := make([]string, 0, len(st.pkgCache))
+	for k := range st.pkgCache {
+		keys = append(keys, k)
+	}
+	sort.Strings(keys)
+	return keys
+}
